@@ -97,7 +97,7 @@ class Ctx(object):
 
   def negative_control(self, name, rejected):
     self.neg_controls.append(dict(name=name, rejected=bool(rejected)))
-    if not rejected:
+    if not rejected and not self.violations:
       raise Machinery('negative control %r was accepted: the check binds nothing' % name)
 
   # -- output ----------------------------------------------------------------------
